@@ -876,6 +876,18 @@ def gen_class(rng, i, env, policy, vtags, force=None):
 POLICIES = ["alldefault", "nodefault", "kwonly", "mixed"]
 
 
+def _guard_private_slots(spec, env):
+    """A private (`__x`) field name that reaches a slotted class is mangled by type() when it becomes a
+    slot; slotted subclasses then fail with AttributeError in _create_slots_class.  That is a slots
+    matter (C08), not field collection: once such a name exists in a case nothing is slotted."""
+    if spec["kind"] == "plain":
+        return
+    if any(n.startswith("__") for n, _ in (spec.get("these") or [])):
+        env.private_unmangled = True
+    if getattr(env, "private_unmangled", False):
+        spec["slots"] = False
+
+
 def gen_random_case(rng):
     future = rng.random() < 0.4
     policy = rng.choices(POLICIES, [5, 3, 1, 4])[0]
@@ -894,8 +906,12 @@ def gen_random_case(rng):
                     spec[key] = src.get(key)
                 spec["deco_name"] = False
                 spec["deco_ref"] = src["id"]
+                if spec["slots"] and getattr(env, "private_unmangled", False):
+                    # the shared decorator object is slotted: do not re-use it below a private name
+                    spec = gen_class(rng, i, env, policy, vtags)
             else:
                 spec = gen_class(rng, i, env, policy, vtags)
+            _guard_private_slots(spec, env)
             exec_class(env, spec)
             specs.append(spec)
         bound = [s["id"] for s in specs if s["kind"] != "plain" and s["id"] in env.classes]
@@ -960,6 +976,7 @@ def gen_frontend_case(rng):
         specs = []
         for i in range(rng.choice([0, 1, 2])):
             spec = gen_class(rng, i, env, policy, vtags)
+            _guard_private_slots(spec, env)
             exec_class(env, spec)
             specs.append(spec)
         alive = sorted(env.classes)
@@ -983,6 +1000,11 @@ def gen_frontend_case(rng):
             specs.append(spec)
         ids = [s["id"] for s in variants if s["id"] in env.classes]
         pairs = [[x, y] for x, y in itertools.combinations(ids, 2)][:4]
+        stamping = lambda f: bool(f) and f[0] in ("meta", "metarev")  # noqa: E731
+        if any(stamping(s.get("ft")) for s in specs) and not stamping(ft):
+            # Attribute.__eq__ also compares metadata (not modelled): inherited stamps may differ between
+            # the legacy and the MRO-correct variant; when the variants stamp themselves all is restamped
+            pairs = []
     finally:
         env.close()
     return {"classes": specs, "pairs": pairs, "future": future}
